@@ -186,7 +186,7 @@ def configs(tier):
                 for er in ((10, 'inf') if q else (10, 13, 20, 'inf')):
                     out.append((f'ook-detect-sps{sps}-n{n}-bw{ratio}R-pol{pol}-ER{er}', scen_ook_detect,
                                 dict(sps=sps, n=n, ratio=ratio, pol=pol, er_dB=er), {'validate': 1}))
-                if not q and pol == 1:
+                if not q and pol == 1 and (sps, ratio) == (6, 1.0):       # one geometry: each symbolic-level obligation may take minutes
                     out.append((f'ook-detect-sps{sps}-n{n}-bw{ratio}R-symbolic-levels', scen_ook_detect,
                                 dict(sps=sps, n=n, ratio=ratio, pol=pol, er_dB=None), {'validate': 1, 'limits': {'query_timeout_ms': 600000}}))
                 if (sps, ratio) == (4, 0.7) or not q:
